@@ -29,6 +29,10 @@ type ucase struct {
 	Peers     int     `json:"peers"`
 	Threshold uint64  `json:"threshold"`
 	G         [][]uop `json:"goroutines"`
+	// Cold: the node is restarted once more after the peers were registered and before the concurrent
+	// phase, so the peers are known (address book) but have no traffic record in memory yet - the state
+	// in which retrievals served right after a restart find them
+	Cold bool `json:"cold_start,omitempty"`
 }
 
 type ustats struct {
@@ -72,6 +76,13 @@ func runUngated(c ucase, raceRun bool) (st ustats, sig string, err error) {
 	}
 	if e := w.handshake(); e != nil {
 		return st, "C33/op-error", e
+	}
+	if c.Cold {
+		w.cur.gate.Crash()
+		if e := w.boot(); e != nil {
+			return st, "C33/op-error", e
+		}
+		st.classes = append(st.classes, "cold-start:first-updates-of-known-peers-race")
 	}
 	thr := bu(c.Threshold)
 	ctx := context.Background()
@@ -390,6 +401,7 @@ func genU(t *rapid.T) ucase {
 		}
 		c.G = append(c.G, ops)
 	}
+	c.Cold = rapid.Bool().Draw(t, "cold")
 	return c
 }
 
@@ -408,7 +420,7 @@ func recordU(r *evid.Rec, c ucase, st ustats, tag string) {
 	r.Sample(map[string]interface{}{"kind": "ungated", "case": c})
 }
 
-const ruleUngated = "ungated: same service, 2-4 really concurrent goroutines with 1-12 ops each (PutRetrieveTraffic/PutTransferTraffic/Pay/ReceiveCheque/TrafficInit, biased to peer 0), all calls return, then restart; same lower-bound oracle; emitted cumulative payouts per peer strictly increasing; non-trivial = >= 2 goroutines operate on one peer. sequential-with-handshake: 1-16 sequential ops incl. the traffic handshake in which a reconnecting peer presents this node's own cheque 0..1000 above what the node remembers having paid (adopted when higher), TrafficInit and restarts; oracle: every total, stored cheque and settlement amount read through the service before a restart is at most the value read after it, and no cheque is issued at or below an adopted amount; non-trivial = a restart after an adoption"
+const ruleUngated = "ungated: same service, 2-4 really concurrent goroutines with 1-12 ops each (PutRetrieveTraffic/PutTransferTraffic/Pay/ReceiveCheque/TrafficInit, biased to peer 0), all calls return, then restart; in half of the cases the node is restarted once more between registering the peers and the concurrent phase (peers known, no traffic record in memory yet); same lower-bound oracle; emitted cumulative payouts per peer strictly increasing; non-trivial = >= 2 goroutines operate on one peer. sequential-with-handshake: 1-16 sequential ops incl. the traffic handshake in which a reconnecting peer presents this node's own cheque 0..1000 above what the node remembers having paid (adopted when higher), TrafficInit and restarts; oracle: every total, stored cheque and settlement amount read through the service before a restart is at most the value read after it, and no cheque is issued at or below an adopted amount; non-trivial = a restart after an adoption"
 
 func TestC33_Ungated(t *testing.T) {
 	r := evid.Get(id)
